@@ -42,7 +42,7 @@ def gen_cases(tier, seed):
                             c["reduction"] = ["mean", "sum", "none"][rep % 3]
                             c["tclass"] = ["prob", "hard01"][rep % 2]
                         else:
-                            c["shape"] = [[len(SWEEP)], [3, 6]][rep % 2]
+                            c["shape"] = [[len(SWEEP)], [3, 6], []][rep % 3]           # also 0-d tensors (a scalar fast path must be as stable as the array path)
                         cases.append(c)
     cases.append({"op": "mpmath", "seed": int(rng.integers(2 ** 31)), "n": 20 if tier == "quick" else 200})
     return cases
@@ -174,6 +174,14 @@ def run_case(ns, mon, c):
         extra_t = ns.Tensor(extra.copy(), requires_grad=bool(c["seed"] % 2))       # soft targets may be learnable: their gradient is -x * upstream
         extra = extra.astype(np.float64)
     sig = f"{op}.{c['form']}"
+    if c["seed"] % 3 == 0:
+        # the same op was used a moment ago in the other dtype (limits or tables cached at first use must not leak into this call)
+        other = np.dtype("float32") if dt == np.float64 else np.dtype("float64")
+        try:
+            with np.errstate(all="ignore"):
+                call(ns, op, c, ns.Tensor((x64 * 0.5).astype(other)), None if extra_t is None else ns.Tensor(np.asarray(extra_t.data).astype(other) if extra_t.data.dtype.kind == "f" else extra_t.data.copy()))
+        except Exception:
+            pass
     xt = ns.Tensor(x.copy(), requires_grad=True)
     viol = []
     counters = {f"cases:{op}": 1}
